@@ -15,6 +15,7 @@ Oracle: float64 numpy, leaf by leaf, with the a-priori rounding bound of the
 documented algorithm; buffer liveness (`is_deleted`), byte snapshots and
 device-buffer pointers for the "never harms its inputs" clauses.
 """
+import json
 import math
 
 import numpy as np
@@ -26,7 +27,7 @@ import jax.numpy as jnp
 import fedjax
 from fedjax.core import tree_util
 
-from vf.core import Check, require
+from vf.core import Check, Discard, require
 
 PROPERTY_ID = 'C07'
 NEEDS_TF = False
@@ -431,6 +432,53 @@ def run_mean(case, api):
       bound = 0.0 if tol is None else 2 * tol
       require(bool((np.abs(to64(a) - to64(b)) <= bound).all()),
               'aggregator:differs_from_tree_mean', f'leaf {j}')
+
+
+def run_pieces(case):
+  """The weighted mean put together from the public pieces, the way the
+  algorithms that clip or post-process client updates do it (mime_lite.py):
+  tree_zeros_like, tree_weight, tree_add over the clients, then
+  tree_inverse_weight by the total weight.  Every tree the caller handed to one
+  of the pieces -- the client trees AND the running sum -- stays usable."""
+  prefix = 'pieces'
+  # (float16 leaves are built as float32 here: float16 accumulation has its own
+  # stated weight bound and known findings, decided on tree_mean)
+  spec = json.loads(json.dumps(case['tree']).replace('"f16"', '"f32"'))
+  w64 = [float(c['w']) for c in case['clients']]
+  trees = [make_tree(spec, c['leaves'], case['leafkind'], c.get('int_leaves', ()))
+           for c in case['clients']]
+  flats = [flat(t) for t in trees]
+  in_leaves = [f[0] for f in flats]
+  treedef = flats[0][1]
+  snaps = [snapshot(l) for l in in_leaves]
+  in_np = [[to64(l) for l in leaves] for leaves in in_leaves]
+  total = tree_util.tree_zeros_like(trees[0])
+  wsum = 0.
+  for t, w in zip(trees, w64):
+    weighted = tree_util.tree_weight(t, w)
+    held = total
+    total = tree_util.tree_add(held, weighted)
+    # both arguments of tree_add are the caller's too
+    for name, tree in (('running sum', held), ('weighted tree', weighted)):
+      for li, leaf in enumerate(flat(tree)[0]):
+        if _is_jax(leaf):
+          require(not leaf.is_deleted(), 'pieces:input_deleted',
+                  f'tree_add invalidated leaf {li} of its argument ({name})')
+    wsum += w
+  total_leaves = flat(total)[0]
+  total_snap = snapshot(total_leaves)
+  result = tree_util.tree_inverse_weight(total, wsum)
+  out_leaves, out_def = flat(result)
+  require(out_def == treedef, 'pieces:structure', f'{out_def} vs {treedef}')
+  check_outputs_alive(prefix, out_leaves)
+  check_inputs_unharmed(prefix, [total_leaves] + in_leaves, [total_snap] + snaps, out_leaves)
+  in_f16 = [False] * len(out_leaves)
+  check_mean_values(prefix, in_np, w64, out_leaves, in_f16)
+  # normalising the same sum again gives the same mean
+  again, _ = flat(tree_util.tree_inverse_weight(total, wsum))
+  for j, (a, b) in enumerate(zip(out_leaves, again)):
+    require(np.asarray(a).tobytes() == np.asarray(b).tobytes(), 'pieces:second_normalisation_differs',
+            f'leaf {j}')
 
 
 # ------------------------------------------------------------------ sum
@@ -981,6 +1029,14 @@ CHECKS = [
           doc='mean_aggregator().apply over (client_id, params, weight): same '
               'oracle as tree_mean, agrees with tree_mean, state returned '
               'unchanged'),
+    Check(name='mean_from_pieces', run=run_pieces,
+          strategy=lambda tier: mean_case(tier, 'tree_mean'),
+          labels=mean_labels, nontrivial=mean_nontrivial,
+          budget={'quick': 800, 'thorough': 20000}, time_share=0.5,
+          doc='the weighted mean assembled from tree_zeros_like / tree_weight / '
+              'tree_add / tree_inverse_weight (as mime_lite does): same float64 '
+              'oracle; the client trees, the weighted trees and the running sum '
+              'handed to the pieces are neither deleted, modified nor aliased'),
     Check(name='tree_sum', run=run_sum, strategy=sum_case,
           labels=sum_labels, nontrivial=sum_nontrivial,
           budget={'quick': 1400, 'thorough': 40000}, time_share=0.8,
